@@ -67,8 +67,10 @@ func spell(t *sim.Tape, target, refDir string, relativeOK bool) string {
 		}
 		return s
 	}
-	style := t.Choose(8)
+	style := t.Choose(9)
 	switch style {
+	case 8: // the whole name is a dot form (resolves to the referrer's directory or the root)
+		return []string{".", "..", "./", "../", "", "/.", "/..", "./.", "a/.."}[t.Choose(9)]
 	case 0: // absolute clean
 		return "/" + strings.Join(segs, "/")
 	case 7: // absolute, clean except for its tail
